@@ -65,7 +65,7 @@ PROPS = {
     'C14': dict(
         title='id allocator / thread ids / deposit box',
         quick=[mc('mc_ids', 'all', 'sc', P=2, E=1, budget=150), sq('sq_ids', ['--depth', '12'], budget=100)],
-        thorough=[mc('mc_ids', 'all', 'sc', P=3, E=1, budget=400), mc('mc_ids', 'all', 'tso', P=2, D=1, E=0, budget=400), sq('sq_ids', ['--depth', '18'], budget=300)],
+        thorough=[mc('mc_ids', 'all', 'sc', P=3, E=1, budget=400), mc('mc_ids', 'all', 'tso', P=1, D=1, E=0, budget=400), sq('sq_ids', ['--depth', '18'], budget=300)],
         oracle='harness ownership map (no value held twice), quiescent reuse and for_each = live set, thread ids unique while live and recycled after death, exactly one taker per deposit id, stale ids never match after slot reuse; sequential half (sq_ids): every allocate/free history (5 held values) and every emplace/take/take_released/finish_released history over 5 issued ids vs a reference model: reuse instead of minting, end(), for_each = live set, take succeeds iff the id is live and returns its own item',
     ),
     'C16': dict(
@@ -103,19 +103,19 @@ PROPS = {
     'C04': dict(
         title='concurrent vector: stable addresses, one element per index, built/destroyed once',
         quick=[mc('mc_vector', 'all', 'sc', P=2, E=0, budget=200)],
-        thorough=[mc('mc_vector', 'all', 'sc', P=3, E=1, budget=400), mc('mc_vector', '0,1,2,3', 'tso', P=2, D=1, E=0, budget=400)],
+        thorough=[mc('mc_vector', 'all', 'sc', P=3, E=1, budget=400), mc('mc_vector', '0,1,2,3,8', 'tso', P=1, D=1, E=0, budget=400)],
         oracle='one address per index across threads and over time; per-address construction/destruction counters (exactly once, losers\' speculative blocks destroyed once and never visible); snapshots read through superseded block tables: the freed-memory oracle + virtual clock flag any table freed < 64 s after the growth that superseded it (clock scripts: +0, +63 s, +64 s across the 16-bit wrap, +130 s while a retire is stalled); HB race detector on elements',
     ),
     'C17': dict(
         title='page allocators / object pool: resources conserved, never shared, never lost',
         quick=[mc('mc_pages', 'all', 'sc', P=2, E=0, budget=200), sq('sq_pages', ['--depth', '12'], budget=100)],
-        thorough=[mc('mc_pages', 'all', 'sc', P=3, E=1, budget=400), mc('mc_pages', '0-4,7,8', 'tso', P=2, D=1, E=0, budget=400), sq('sq_pages', ['--depth', '16'], budget=300)],
+        thorough=[mc('mc_pages', 'all', 'sc', P=3, E=1, budget=400), mc('mc_pages', '0-4,7,8', 'tso', P=1, D=1, E=0, budget=400), sq('sq_pages', ['--depth', '16'], budget=300)],
         oracle='ownership map over a recording upstream whose pages are never reused: nothing handed out that another caller holds or that was already returned upstream, nothing returned twice or while held; at quiescence obtained - returned = held + cached; destruction returns the cache; strict pool: outstanding <= injected and blocked pops resume (deadlock detector); auto pool: recycler once per return, overflow destroyed, nothing leaked; sequential half (sq_pages): every allocate/deallocate history (batches of 1-3, up to 6 held pages) on cached (capacity 1/2/4), batch (2/3/default) and counting-over-cached allocators and every pop/try_pop/drop/push history on strict and auto-creating pools: conservation after every step, nothing handed out twice or after return, destruction returns exactly the cache',
     ),
     'C19': dict(
         title='counters / enumerable thread locals: aggregates exact across thread and instance churn',
         quick=[mc('mc_counter', 'all', 'sc', P=2, E=0, budget=150)],
-        thorough=[mc('mc_counter', 'all', 'sc', P=3, E=1, budget=400), mc('mc_counter', '0,2,7', 'tso', P=2, D=1, E=0, budget=400)],
+        thorough=[mc('mc_counter', 'all', 'sc', P=3, E=1, budget=400), mc('mc_counter', '0,2,7,10', 'tso', P=1, D=1, E=0, budget=400)],
         oracle='exact sum / sum+count / extreme at every quiescent read over generations of threads (slot reuse) and generations of counter instances (storage reuse, moves); values chosen from {min,-1,0,1,max}; local() identity and privacy; for_each covers every slot ever used, for_each_alive exactly the live ones (both overloads); concurrent read bounded by completed-before / started-before contributions',
         assumptions=['histories of thread births/deaths and instance create/destroy/move are enumerated through data choices (bbmc::choose) up to 4 steps'],
     ),
@@ -134,7 +134,7 @@ PROPS = {
     'C20': dict(
         title='logging: each committed entry written once, intact, in order; pages returned',
         quick=[sq('sq_log', ['--depth', '7'], budget=150), mc('mc_log', '0-4,6,7', 'sc', P=2, E=0, budget=150), mc('mc_log', '5', 'sc', P=1, E=0, budget=100)],
-        thorough=[sq('sq_log', ['--depth', '10'], budget=300), mc('mc_log', 'all', 'sc', P=3, E=0, budget=400), mc('mc_log', '0-4', 'tso', P=2, D=1, E=0, budget=400)],
+        thorough=[sq('sq_log', ['--depth', '10'], budget=300), mc('mc_log', 'all', 'sc', P=3, E=0, budget=400), mc('mc_log', '0-4', 'tso', P=1, D=1, E=0, budget=400)],
         oracle='scatter list rebuilt from the size alone = bytes streamed, every backing page (data and page-table pages) listed exactly once, allocator balance zero after discard / after the writer thread wrote; captured writev() bytes per (fake) descriptor = interleaving of whole entries, each once, per thread in program order; nothing pending after close(); rotated descriptor closed once',
         assumptions=['page sizes 64/128/256 (page tables of 7/15/31 pointers); writev never returns short (the property does not quantify over short writes)'],
     ),
